@@ -24,7 +24,7 @@ Theorem C05_string :
   forall c h fuel fifo cs name o v x,
   In (v, x) (table (run fuel fifo c h (init cs [] name o))) ->
   (length (v_val x) <= max_str c)%nat /\
-  (v_trunc x = true <-> (max_str c < length (o_text (hget h (v_oid x))))%nat).
+  (v_trunc x = true <-> (max_str c < length (otext (hget h (v_oid x))))%nat).
 Proof.
   intros c h fuel fifo cs name o v x I. apply entry_ok_string.
   apply (run_table_ok c h fuel fifo (init cs [] name o)) with (v := v); [intros ? ? []|exact I].
@@ -92,12 +92,12 @@ Print Assumptions C05_shallower_variables_win.
    budget of 3 records the depth-3 element while the depth-1 locals b and a are dropped. *)
 Definition lifo_heap : heap :=
   [ {| o_ty := []; o_text := []; o_kind := KDict [ {| c_name := [97]; c_oid := 1 |}; {| c_name := [98]; c_oid := 2 |};
-                                                    {| c_name := [99]; c_oid := 3 |} ] |};
-    {| o_ty := []; o_text := [49]; o_kind := KLeaf |};
-    {| o_ty := []; o_text := [50]; o_kind := KLeaf |};
-    {| o_ty := []; o_text := []; o_kind := KSeq [4%nat] |};
-    {| o_ty := []; o_text := []; o_kind := KSeq [5%nat] |};
-    {| o_ty := []; o_text := [57]; o_kind := KLeaf |} ].
+                                                    {| c_name := [99]; c_oid := 3 |} ]; o_sized := false |};
+    {| o_ty := []; o_text := [49]; o_kind := KLeaf; o_sized := false |};
+    {| o_ty := []; o_text := [50]; o_kind := KLeaf; o_sized := false |};
+    {| o_ty := []; o_text := []; o_kind := KSeq [4%nat]; o_sized := false |};
+    {| o_ty := []; o_text := []; o_kind := KSeq [5%nat]; o_sized := false |};
+    {| o_ty := []; o_text := [57]; o_kind := KLeaf; o_sized := false |} ].
 Definition lifo_cfg : cfg := {| max_vars := 3; max_coll := 10; max_depth := 5; max_str := 10 |}.
 Theorem C05_lifo_refuted :
   map snd (log (run 20 false lifo_cfg lifo_heap (init [] [] LOCALS 0))) = [0; 1; 2; 3]%nat /\
